@@ -78,12 +78,24 @@ class Contract(object):
         return []
 
     # ---- use at a call site --------------------------------------------------------
+    def measure(self, ns):
+        """recursive functions: an integer term that decreases at every recursive call and is >= 0
+        (the contract is assumed at the recursive call - induction on this measure)"""
+        return None
+
     def apply(self, I, selfobj, args, kwargs):
         import z3
         from pyvc.engine import RaiseSig, Sym
         st = I.st
         st.used_contracts.add(self.module + '.' + self.qualname)
         ns = self.bind(I, selfobj, args, kwargs)
+        if getattr(I, 'verifying', None) == (self.module, self.key_name) or \
+                getattr(I, 'verifying', None) == (self.module, self.qualname):
+            m0, m1 = getattr(I, 'measure0', None), self.measure(ns)
+            if m0 is None or m1 is None:
+                from pyvc.engine import Unsupported
+                raise Unsupported('recursive call of %s without a measure' % self.qualname)
+            st.vc('call:%s.measure decreases' % self.qualname, z3.And(m1 >= 0, m1 < m0), kind='callpre')
         for i, c in enumerate(self.pre(ns)):
             nm, cl = c if isinstance(c, tuple) else ('pre%d' % i, c)
             st.vc('call:%s.%s' % (self.qualname, nm), _t(cl), kind='callpre')
